@@ -45,3 +45,9 @@ pub const DEFAULT_RESET_STREAM_MAX: usize = 50;
 // reasonable guess of the average here.
 pub const DEFAULT_RESET_STREAM_SECS: u64 = 1;
 pub const DEFAULT_MAX_SEND_BUFFER_SIZE: usize = 1024 * 400;
+
+#[cfg(feature = "verif")]
+#[allow(missing_docs, dead_code, unused_imports)]
+pub(crate) mod verif_h {
+    include!(concat!(env!("H2_VERIF_DIR"), "/harness/proto/mod.rs"));
+}
